@@ -16,6 +16,8 @@ HARNESS = {
     "C08": "c07_c08",
     "C09": "c09_c10",
     "C10": "c09_c10",
+    "C11": "c11_c12",
+    "C12": "c11_c12",
 }
 
 
